@@ -1,6 +1,7 @@
 package mon
 
 import (
+	"bytes"
 	"fmt"
 
 	"github.com/intuitivelabs/sipsp"
@@ -210,6 +211,14 @@ func checkHistoryC(w *core.Worker, p *ParserDef, cfg0 Cfg, ops []histOp, cfgs []
 					n, _ := sipsp.ParseFLine(op.dirty, 0, &mo.m.FL)
 					sipsp.ParseHeaders(op.dirty, n, &mo.m.HL, &mo.m.PV)
 				})
+			} else {
+				// list objects: several more calls add to the same object (pieces separated by
+				// a 0 byte; empty and blank pieces are calls, too)
+				core.Guard(func() {
+					for _, piece := range bytes.Split(op.dirty, []byte{0}) {
+						U.Call(piece, 0)
+					}
+				})
 			}
 		}
 		if cfgs != nil && st+1 < len(ops) {
@@ -318,6 +327,32 @@ func RunC12(r *core.Run) {
 				ab = len(in) - rr.Intn(len(in)/3+1)
 			}
 			ops[i] = histOp{in: in, rk: rr.Intn(rkCount), abandon: ab, cuts: CutsRandom(nil, rr, 0, ab, rr.Range(0, 3))}
+			if !p.IsMsg && (p.Group == "tok" || p.Group == "nameaddr") && rr.Intn(3) == 0 {
+				// the list object receives further calls before it is reset
+				var d []byte
+				for k := rr.Range(1, 4); k > 0; k-- {
+					var piece []byte
+					switch rr.Intn(4) {
+					case 0:
+					case 1:
+						piece = []byte([]string{" ", "\r\n", " \r\nX", "\t"}[rr.Intn(4)])
+					default:
+						piece = histInput(rr, p, &cfg, corpus)
+						if rr.Intn(3) == 0 {
+							piece = piece[:rr.Intn(len(piece)+1)]
+						}
+					}
+					piece = bytes.ReplaceAll(piece, []byte{0}, []byte{1})
+					if d != nil {
+						d = append(d, 0)
+					}
+					d = append(d, piece...)
+					if d == nil {
+						d = []byte{}
+					}
+				}
+				ops[i].dirty = d
+			}
 			if p.IsMsg && rr.Intn(5) == 0 {
 				d := histInput(rr, p, &cfg, corpus)
 				ops[i].dirty = d[:rr.Intn(len(d)+1)]
